@@ -553,6 +553,17 @@ func redactPipelineStage(stage interface{}, redactFieldNames bool, keyPath []str
 						case []any:
 							isSelectivelyRedactable := isRedactableFieldPatternInArray(subVTyped)
 							newSubMap.Set(redactedSubK, redactArrayValues(subVTyped, redactFieldNames, inSearchStage, isSelectivelyRedactable, append(newKeyPath, subK)))
+						case string:
+							if len(subVTyped) > 0 && subVTyped[0] == '$' {
+								// a "$field" reference, as in the other value positions: kept, or its pseudonym
+								if _, isCoreOp := CoreOperators.Get(subVTyped); !redactFieldNames || isCoreOp {
+									newSubMap.Set(redactedSubK, subVTyped)
+								} else {
+									newSubMap.Set(redactedSubK, HashName(subVTyped))
+								}
+							} else {
+								newSubMap.Set(redactedSubK, redactScalarValue(append(slices.Clone(newKeyPath), subK), subV, inSearchStage, false))
+							}
 						default:
 							// the whole path, so that a --redactFieldsRegexp match on an enclosing field name is seen
 							newSubMap.Set(redactedSubK, redactScalarValue(append(slices.Clone(newKeyPath), subK), subV, inSearchStage, false))
